@@ -120,15 +120,13 @@ theorem decToInt_exact (w : Nat) (s lo hi : Int) (hw : WidthOK w)
   intro x
   simp [decToIntSpec, hs0, numCast, inRange, tdivNat_eq_divTrunc]
 
-/-- **Decimal(p1,s1) → decimal(p2,s2) with s1 ≤ s2 (scale increase).**  Provided the `i8`
-arithmetic of `make_upscaler` does not wrap (`p1 + (s2-s1) ≤ 127`, always true below 256 bits),
-the fallible path equals the exact rescale for *every* input, and the "infallible"
-wrapping-multiply shortcut equals it **for inputs that fit the declared precision `p1`**
-(DESIGN §6 item 4: the hypothesis cannot be dropped — see `upscaler_i8_wrap_defect` and the
-out-of-domain probes of the harness). -/
+/-- **Decimal(p1,s1) → decimal(p2,s2) with s1 ≤ s2 (scale increase).**  The fallible
+path equals the exact rescale for *every* input, and the "infallible" wrapping-multiply shortcut
+(taken only when the native type is not narrowed and `p1 + (s2-s1) ≤ p2`, a sum now computed in
+`i16`) equals it **for inputs that fit the declared precision `p1`** (DESIGN §6 item 4: this
+hypothesis cannot be dropped — see the out-of-domain probes of the harness). -/
 theorem upscaler_exact (w1 w2 p1 p2 : Nat) (s1 s2 : Int) (hw : WidthOK w2)
-    (hp2 : p2 ≤ maxPrecision w2) (hs : s1 ≤ s2) (hk : s2 - s1 ≤ (maxPrecision w2 : Int))
-    (hnowrap : (p1 : Int) + (s2 - s1) ≤ 127) :
+    (hp2 : p2 ≤ maxPrecision w2) (hs : s1 ≤ s2) (hk : s2 - s1 ≤ (maxPrecision w2 : Int)) :
     match upscaler w1 p1 s1 w2 p2 s2 with
     | .fallible f => ∀ x, f x = decToDecSpec s1 p2 s2 x
     | .infallible f => ∀ x, fitsPrec p1 x → f x = decToDecSpec s1 p2 s2 x
@@ -137,11 +135,10 @@ theorem upscaler_exact (w1 w2 p1 p2 : Nat) (s1 s2 : Int) (hw : WidthOK w2)
   have hmp := hw.maxp
   have hkm : k ≤ maxPrecision w2 := by omega
   have hd : wrapW 8 (s2 - s1) = (k : Int) := by rw [hkk]; exact wrapW8_id _ (by omega) (by omega)
-  have hsum : wrapW 8 ((p1 : Int) + (k : Int)) = (p1 : Int) + k := wrapW8_id _ (by omega) (by omega)
   have hspec : ∀ x, decToDecSpec s1 p2 s2 x = if fitsPrec p2 (x * (10 : Int) ^ k) then some (x * (10 : Int) ^ k) else none := by
     intro x; simp [decToDecSpec, rescaleExact, hs, hkk]
   unfold upscaler
-  simp only [hd, Int.toNat_natCast, hw.pow k hkm, hsum]
+  simp only [hd, Int.toNat_natCast, hw.pow k hkm]
   have hneg : ¬ ((k : Int) < 0) := by omega
   simp only [hneg, if_false]
   by_cases hinf : w1 ≤ w2 ∧ (p1 : Int) + (k : Int) ≤ (p2 : Int)
@@ -164,7 +161,7 @@ theorem upscaler_exact (w1 w2 p1 p2 : Nat) (s1 s2 : Int) (hw : WidthOK w2)
     · have h4 : ¬ (validPrec w2 p2 (x * (10 : Int) ^ k) = true) := fun h => h1 ((hw.prec p2 _ hp2).1 h)
       simp [h1, h4]
 
-example : WidthOK 128 ∧ (5 : Int) + (4 - 2) ≤ 127 := ⟨widthOK128, by decide⟩
+example : WidthOK 128 ∧ (2 : Int) ≤ 4 := ⟨widthOK128, by decide⟩
 
 /-- **Scale decrease**: the fallible path is the exact quotient rounded half away from zero,
 accepted iff it has at most `p2` digits.  *Partial*: for the infallible shortcut only
@@ -172,8 +169,7 @@ accepted iff it has at most `p2` digits.  *Partial*: for the infallible shortcut
 `|x| < 10^p1` and `p1 - (s1-s2) < p2` imply it fits `p2` digits is left to the correspondence
 run. -/
 theorem downscaler_exact_partial (w1 w2 p1 p2 : Nat) (s1 s2 : Int) (hw1 : WidthOK w1) (hw2 : WidthOK w2)
-    (hp2 : p2 ≤ maxPrecision w2) (hs : s2 < s1) (hk : s1 - s2 ≤ (maxPrecision w1 : Int))
-    (hp1 : p1 ≤ 127) :
+    (hp2 : p2 ≤ maxPrecision w2) (hs : s2 < s1) (hk : s1 - s2 ≤ (maxPrecision w1 : Int)) :
     match downscaler w1 p1 s1 w2 p2 s2 with
     | .fallible f => ∀ x, f x = decToDecSpec s1 p2 s2 x
     | .infallible f => ∀ x, nativeOk w2 (divRoundHalfAway x (10 ^ (s1 - s2).toNat)) →
@@ -183,7 +179,6 @@ theorem downscaler_exact_partial (w1 w2 p1 p2 : Nat) (s1 s2 : Int) (hw1 : WidthO
   have hmp := hw1.maxp
   have hkm : k + 1 ≤ maxPrecision w1 := by omega
   have hd : wrapW 8 (s1 - s2) = ((k + 1 : Nat) : Int) := by rw [hkk]; exact wrapW8_id _ (by omega) (by omega)
-  have hsum : wrapW 8 ((p1 : Int) - ((k + 1 : Nat) : Int)) = (p1 : Int) - ((k + 1 : Nat) : Int) := wrapW8_id _ (by omega) (by omega)
   have hdiv : ((10 : Int) ^ (k + 1)).toNat = 2 * (5 * 10 ^ k) := by
     rw [pow_cast, Int.toNat_natCast, Nat.pow_succ]; omega
   have hdiv' : 10 ^ (k + 1) = 2 * (5 * 10 ^ k) := by rw [Nat.pow_succ]; omega
@@ -191,7 +186,7 @@ theorem downscaler_exact_partial (w1 w2 p1 p2 : Nat) (s1 s2 : Int) (hw1 : WidthO
   have hrs : ∀ x, rescaleExact s1 s2 x = divRoundHalfAway x (2 * (5 * 10 ^ k)) := by
     intro x; simp [rescaleExact, hns, hkk, hdiv']
   unfold downscaler
-  simp only [hd, Int.toNat_natCast, hw1.pow (k + 1) hkm, hsum, hdiv]
+  simp only [hd, Int.toNat_natCast, hw1.pow (k + 1) hkm, hdiv]
   have hneg : ¬ (((k + 1 : Nat) : Int) < 0) := by omega
   simp only [hneg, if_false]
   by_cases hinf : w1 ≤ w2 ∧ (p1 : Int) - ((k + 1 : Nat) : Int) < (p2 : Int)
